@@ -314,13 +314,13 @@ package ast
 
 //@ func parse_regexp_pattern [C08 C14]
 //@   noframe
-//@   requires regexp_token != nil && 0 <= index && index < len(regexp)
+//@   requires regexp_token != nil && 0 <= index && index <= len(regexp)
 //@   ensures nohole: result.2 == nil ==> wfbox(result.0)
 //@   ensures index: result.2 == nil ==> index < result.1 && result.1 <= len(regexp)
 
 //@ func parse_regexp_literal [C08 C14]
 //@   noframe
-//@   requires regexp_token != nil && 0 <= index && index < len(regexp)
+//@   requires regexp_token != nil && 0 <= index && index <= len(regexp)
 //@   ensures nohole: result.2 == nil ==> wfbox(result.0)
 //@   ensures index: result.2 == nil ==> index < result.1 && result.1 <= len(regexp)
 
@@ -335,7 +335,7 @@ package ast
 
 //@ func parse_regexp_class_ranges [C08 C14]
 //@   noframe
-//@   requires regexp_token != nil && 0 <= index && index < len(regexp)
+//@   requires regexp_token != nil && 0 <= index && index < len(regexp) && sat(regexp, index) != ']'
 //@   ensures nohole: result.2 == nil ==> wfbox(result.0)
 //@   ensures index: result.2 == nil ==> index < result.1 && result.1 <= len(regexp)
 
@@ -350,7 +350,7 @@ package ast
 //@   requires regexp_token != nil && 0 <= index && index <= len(regexp)
 //@   ensures nohole: result.2 == nil ==> wfbox(result.0)
 //@   ensures index: result.2 == nil ==> index < result.1 && result.1 <= len(regexp)
-//@   loop 1 invariant index <= current_index && current_index < len(regexp)
+//@   loop 1 invariant index <= current_index && current_index <= len(regexp)
 //@   loop 1 decreases len(regexp) - current_index
 
 //@ func parse_regexp_groups [C08 C14]
@@ -358,20 +358,22 @@ package ast
 //@   requires regexp_token != nil && 0 <= index && index <= len(regexp)
 //@   ensures nohole: result.2 == nil ==> wfbox(result.0)
 //@   ensures index: result.2 == nil ==> index < result.1 && result.1 <= len(regexp)
-//@   loop 1 invariant index <= current_index && current_index < len(regexp)
+//@   loop 1 invariant index <= current_index && current_index <= len(regexp)
 //@   loop 1 decreases len(regexp) - current_index
 
 //@ func parse_regexp_class_atom_string [C08 C14]
 //@   noframe
-//@   requires regexp_token != nil && 0 <= index && index < len(regexp)
+//@   requires regexp_token != nil && 0 <= index && index <= len(regexp)
+//@   ensures atom: result.2 == nil && index < len(regexp) && sat(regexp, index) != ']' ==> result.0 != nil
+//@   ensures range: result.2 == nil ==> index < len(regexp) && result.1 <= len(regexp)
 //@   ensures some: result.2 == nil && result.0 != nil ==> result.1 == index + 1
 //@   ensures none: result.2 == nil && result.0 == nil ==> result.1 == index && sat(regexp, index) == ']'
 
 //@ func parse_regexp_number [C08 C14]
 //@   noframe
 //@   requires regexp_token != nil && 0 <= index && index <= len(regexp)
-//@   ensures index: result.2 == nil ==> index < result.1 && result.1 <= len(regexp) && result.0 >= 0
-//@   loop 1 invariant index <= idx && idx <= len(regexp)
+//@   ensures index: result.2 == nil ==> index < result.1 && result.1 <= len(regexp)
+//@   loop 1 invariant index <= idx && idx <= len(regexp) && ((idx > index) == (len(result) > 0))
 //@   loop 1 decreases len(regexp) - idx
 
 //@ func parse_regexp_quantifier [C08 C14]
